@@ -271,7 +271,7 @@ def random_history(rnd: random.Random, prop: str, length: int) -> tuple[dict, li
             if it == 0:
                 pl = rnd.choice(["57", "0", "100", "7.6", "99.4", "12"] + (["abc", "", "150", "-3", "nan", ("level " * 40).strip()] if prop == "C03" else []))
             elif it == 22:
-                pl = rnd.choice(["1", "1111", "0", "300000"] + (["x", "", ("beat " * 50).strip()] if prop in ("C03", "C04") else []))
+                pl = rnd.choice(["1", "1111", "0", "300000", "-1"] + (["x", "", ("beat " * 50).strip()] if prop in ("C03", "C04") else []))
             elif it == 2:
                 pl = rnd.choice(VERSIONS + (["garbage", "", ("no version " * 30).strip()] if prop in ("C03", "C05") else []))
             nn = 0 if it in (2, 9, 14) else (255 if it == 3 and rnd.random() < 0.7 else n)
@@ -343,6 +343,24 @@ def storm_history(rnd: random.Random) -> tuple[dict, list]:
     evs.append(wake(1))
     evs.append(wake(1))
     evs.append(wake(2))
+    return init, evs
+
+
+def crowd_history(rnd: random.Random) -> tuple[dict, list]:
+    """C08 / C07: hundreds of commands parked at once (a release that fails early keeps all the others), then wakes."""
+    proto = rnd.choice(["2.0", "2.1", "2.2"])
+    wake_t = 32 if proto == "2.2" else 22
+    kids = [[c, {"type": 6, "desc": "", "vals": []}] for c in range(0, 40)]
+    nodes = [[n, {"type": 17, "ver": "2.0", "bat": 0, "sn": "", "sv": "", "hb": 0, "sl": True, "rb": False, "ch": kids}] for n in (1, 2)]
+    init = {"metric": True, "ver": proto, "proto": proto, "nodes": nodes}
+    evs = []
+    for i in range(300):
+        evs.append(dict(k="send", n=1 + (i % 7 == 0), c=i % 40, cmd=1, ack=0, t=i // 40, p=f"v{i}", buf=True))
+    wake = lambda n, f=None: dict(k="recv", n=n, c=255, cmd=3, ack=0, t=wake_t, p="" if proto == "2.2" else "1", **({"fault": f} if f else {}))  # noqa: E731
+    evs.append(wake(1, "rel:2"))
+    evs.append(wake(1))
+    evs.append(wake(2))
+    evs.append(wake(1))
     return init, evs
 
 
@@ -556,6 +574,9 @@ def check(prop: str) -> int:
         if prop == "C08":
             for _ in range(nrand // 2):
                 init, events = storm_history(rnd)
+                jobs.append((init, events, None))
+            for _ in range(2 if tier == "quick" else 6):
+                init, events = crowd_history(rnd)
                 jobs.append((init, events, None))
         if prop == "C05":
             for init, events in version_grid(tier):
